@@ -171,6 +171,40 @@ theorem ratio_entries_eq_standalone (P : Prims α) (read : AggrCols → κ → A
     obtain ⟨c, hc, rfl⟩ := List.mem_map.mp hm
     exact ratio_frame P c.2 (hd c hc)
 
+/-- a backend whose answer holds, for every requested name, a value determined by the data alone
+(variant and column names) — with `cnt`, `mean`, `var`, `cov` the sample statistics of the variant's
+rows this is exactly what `C01.all_pipelines_eq_stats` proves of each of the three pipelines (`IsStats`) -/
+def AnswersFrom (read : AggrCols → κ → Aggr α) (cnt : κ → α) (mean var : κ → String → α)
+    (cov : κ → String → String → α) : Prop :=
+  ∀ req v, (req.has_count = true → (read req v).count_ = cnt v) ∧
+    (∀ x ∈ req.mean_cols, (read req v).mean_ x = mean v x) ∧
+    (∀ x ∈ req.var_cols, (read req v).var_ x = var v x) ∧
+    (∀ p ∈ req.cov_cols, (read req v).cov_ (sortedPair p).1 (sortedPair p).2 = cov v (sortedPair p).1 (sortedPair p).2)
+
+/-- **a backend that answers with the statistics of the data is `ReadsExact`**: what it returns for
+a requested statistic cannot depend on what else was requested -/
+theorem readsExact_of_answersFrom (read : AggrCols → κ → Aggr α) (cnt : κ → α) (mean var : κ → String → α)
+    (cov : κ → String → String → α) (h : AnswersFrom read cnt mean var cov) : ReadsExact read := by
+  intro req req' v hcov
+  obtain ⟨c1, c2, c3, c4⟩ := hcov
+  obtain ⟨a1, a2, a3, a4⟩ := h req v
+  obtain ⟨b1, b2, b3, b4⟩ := h req' v
+  refine ⟨fun hc => by rw [a1 hc, b1 (c1 hc)], fun x hx => by rw [a2 x hx, b2 x (c2 x hx)],
+    fun x hx => by rw [a3 x hx, b3 x (c3 x hx)], fun p hp => ?_⟩
+  have := b4 (sortedPair p) (c4 p hp)
+  rw [sortedPair_idem] at this
+  rw [a4 p hp, this]
+
+/-- the composed statement on such a backend: every entry of an experiment of Mean / RatioOfMeans
+metrics is the metric analysed alone -/
+theorem ratio_entries_eq_standalone_on_exact_backend (P : Prims α) (read : AggrCols → κ → Aggr α)
+    (cnt : κ → α) (mean var : κ → String → α) (cov : κ → String → String → α)
+    (h : AnswersFrom read cnt mean var cov)
+    (cfgs : List (String × RatioCfg α)) (hd : ∀ c ∈ cfgs, DistinctRoles c.2) (ps : List (κ × κ)) :
+    experimentAnalyze read (cfgs.map (fun c => (c.1, ratioMetric P c.2))) ps =
+      ps.map (fun p => (p, cfgs.map (fun c => (c.1, standalone read (ratioMetric P c.2) p)))) :=
+  ratio_entries_eq_standalone P read (readsExact_of_answersFrom read cnt mean var cov h) cfgs hd ps
+
 /-- non-vacuity of `ReadsExact`: a backend that answers every request from one fixed table of
 statistics (what C01 proves the pipelines do: the sample statistics of the variant's rows) -/
 example (stats : κ → Aggr α) : ReadsExact (fun (_ : AggrCols) v => stats v) :=
